@@ -10,7 +10,7 @@ use refmodel::tensor::*;
 use serde_json::{json, Value};
 
 fn fwd(cfg: &MatmulCfg) -> FwdCase {
-    FwdCase { op: cfg.op(), leaves: cfg.leaves([false, false, false]), force_exact: None }
+    FwdCase { op: cfg.op(), leaves: cfg.leaves([false, false, false]), force_exact: None, second_is_view_of_first: None }
 }
 
 /// inadmissible variants of an admissible configuration
@@ -103,7 +103,7 @@ fn random_case(r: &MmRecipe) -> Option<FwdCase> {
     if let Some(c) = &cfg.c {
         leaves.push(LeafSpec { dims: c.clone(), vals: gen_vals(r.vseed ^ 2, numel(c), VKind::Small), tracked: false });
     }
-    Some(FwdCase { op: cfg.op(), leaves, force_exact: None })
+    Some(FwdCase { op: cfg.op(), leaves, force_exact: None, second_is_view_of_first: None })
 }
 
 pub fn dispatch(kind: &str, v: &Value) -> Option<Outcome> {
@@ -145,6 +145,70 @@ pub fn campaigns(ctx: &Ctx) -> Stats {
         }
     }
     st.merge(ctx.run_indexed("inadmissible-configurations", bad.len() as u64, None, |i| Some(fwd(&bad[i as usize]))));
+    // both factors are the SAME array (x x^T, x^T x, x x for square x), with every additive-term shape
+    let mut same = vec![];
+    for (r, k) in [(1usize, 1usize), (1, 3), (2, 1), (2, 2), (2, 3), (3, 2), (3, 3)] {
+        for lead in [vec![], vec![2], vec![2, 3]] {
+            let mut d = lead.clone();
+            d.extend([r, k]);
+            let mut flags = vec![(false, true), (true, false)];
+            if r == k {
+                flags.extend([(false, false), (true, true)]);
+            }
+            for (ta, tb) in flags {
+                let (rows, cols) = (if ta { k } else { r }, if tb { r } else { k });
+                for c in c_patterns(&lead, rows, cols) {
+                    same.push(MatmulCfg { a: d.clone(), b: d.clone(), ta, tb, c });
+                }
+            }
+        }
+    }
+    st.merge(ctx.run_indexed("both-factors-are-the-same-array", same.len() as u64, None, |i| {
+        let cfg = &same[i as usize];
+        let mut c = fwd(cfg);
+        c.leaves[1].vals = c.leaves[0].vals.clone();
+        if let Some(cl) = c.leaves.get_mut(2) {
+            // unequal entries in the additive term
+            cl.vals = iota(cl.vals.len(), 1000.0, 1000.0);
+        }
+        c.second_is_view_of_first = Some(cfg.a.clone());
+        Some(c)
+    }));
+    // one of rows / inner / cols around typical block lengths, the others small
+    {
+        let nb = BOUNDARY_SIZES.len() as u64;
+        st.merge(ctx.run_indexed("boundary-sizes", nb * 3 * 4 * 2, None, |i| {
+            let n = BOUNDARY_SIZES[(i % nb) as usize];
+            let which = (i / nb) % 3;
+            let (ta, tb) = ((i / nb / 3) % 2 == 1, (i / nb / 6) % 2 == 1);
+            let (r, k, c) = match which {
+                0 => (n, 2, 3),
+                1 => (2, n, 3),
+                _ => (3, 2, n),
+            };
+            let lead: Vec<usize> = if (i / nb / 12) == 0 { vec![] } else { vec![2] };
+            let mut a = lead.clone();
+            a.extend(if ta { [k, r] } else { [r, k] });
+            let b: Vec<usize> = if tb { vec![c, k] } else { vec![k, c] };
+            let cfg = MatmulCfg { a, b, ta, tb, c: Some(vec![c]) };
+            let mut f = fwd(&cfg);
+            // small integers keep long sums exact
+            f.leaves[0].vals = gen_vals(i, f.leaves[0].vals.len(), VKind::Int);
+            f.leaves[1].vals = gen_vals(i + 1, f.leaves[1].vals.len(), VKind::Int);
+            Some(f)
+        }));
+        st.merge(ctx.run_indexed("value-patterns", (N_PATTERNS * N_PATTERNS) as u64 * 4, None, |i| {
+            let (pa, pb) = ((i % N_PATTERNS as u64) as usize, ((i / N_PATTERNS as u64) % N_PATTERNS as u64) as usize);
+            let v = i / (N_PATTERNS * N_PATTERNS) as u64;
+            let cfg = MatmulCfg { a: vec![2, 3, 2], b: vec![2, 4], ta: v & 1 == 1, tb: false, c: if v & 2 == 2 { Some(vec![1]) } else { Some(vec![4]) } };
+            let cfg = if cfg.ta { MatmulCfg { a: vec![2, 2, 3], ..cfg } } else { cfg };
+            let mut f = fwd(&cfg);
+            f.leaves[0].vals = pattern_vals(pa, 12, i);
+            f.leaves[1].vals = pattern_vals(pb, 8, i + 1);
+            f.leaves[2].vals = pattern_vals(pa + pb, f.leaves[2].vals.len(), i + 2);
+            Some(f)
+        }));
+    }
     let total = t.pick(20000u64, 400000);
     let mxs = t.pick(7usize, 10);
     let strat = move || (1..=mxs, 1..=mxs, 1..=mxs, 2..=4usize, 2..=4usize, any::<usize>(), any::<u64>()).prop_map(|(r, k, c, m, n, sel, vseed)| MmRecipe { r, k, c, m, n, sel, vseed }).boxed();
